@@ -35,6 +35,7 @@ class UserDeleteNode(ActionGroup):
         super().__init__(tracks, actions=[])
         self.tracks: SolutionTracks  # Narrow type from base class
         # delete adjacent edges
+        has_parent = len(self.tracks.predecessors(node)) > 0
         for pred in self.tracks.predecessors(node):
             siblings = self.tracks.successors(pred)
             # if you are deleting the first node after a division, relabel
@@ -46,16 +47,35 @@ class UserDeleteNode(ActionGroup):
                 new_track_id = self.tracks.get_track_id(pred)
                 self.actions.append(UpdateTrackIDs(tracks, sib, new_track_id))
             self.actions.append(DeleteEdge(tracks, (pred, node)))
-        for succ in self.tracks.successors(node):
-            self.actions.append(DeleteEdge(tracks, (node, succ)))
-
-        # connect child and parent in track, if applicable
+        # find the track neighbors that will be connected to each other, if applicable
+        predecessor, successor = None, None
         track_id = self.tracks.get_track_id(node)
         if track_id is not None:
             time = self.tracks.get_time(node)
             predecessor, successor = self.tracks.get_track_neighbors(track_id, time)
-            if predecessor is not None and successor is not None:
-                self.actions.append(AddEdge(tracks, (predecessor, successor)))
+        reconnect = predecessor is not None and successor is not None
+        # subtrees that end up disconnected get their own lineage id. If the node
+        # has no parent, one of them can keep the old lineage id.
+        keep_lineage = not has_parent
+        for succ in self.tracks.successors(node):
+            self.actions.append(DeleteEdge(tracks, (node, succ)))
+            if reconnect:
+                continue
+            if keep_lineage:
+                keep_lineage = False
+            else:
+                self.actions.append(
+                    UpdateTrackIDs(
+                        tracks,
+                        succ,
+                        self.tracks.get_track_id(succ),
+                        self.tracks.get_next_lineage_id(),
+                    )
+                )
+
+        # connect child and parent in track
+        if reconnect:
+            self.actions.append(AddEdge(tracks, (predecessor, successor)))
 
         # delete node
         self.actions.append(DeleteNode(tracks, node, pixels=pixels))
